@@ -197,7 +197,10 @@ def load_qchemlog_low(lit: LineIterator) -> dict:
 
         # mulliken charges (the last charges in a multi-step job)
         elif line.startswith("Ground-State Mulliken Net Atomic Charges"):
-            data["mulliken_charges"] = _helper_mulliken(lit)
+            mulliken_charges = _helper_mulliken(lit)
+            # skip the charges of fragments in EDA jobs, which do not match the atoms of the system
+            if len(mulliken_charges) == len(data.get("atnums", mulliken_charges)):
+                data["mulliken_charges"] = mulliken_charges
 
         # cartesian multipole moments (the last mutipole moments in a multi-step job)
         elif line.startswith("Cartesian Multipole Moments"):
